@@ -10,8 +10,8 @@ import (
 )
 
 // TestC11ReproSeekEOF is the minimal reproduction of finding
-// C11:readobjectparts-seek-eof-legacy-compressed (not part of the check's units;
-// run by hand: ./vgo test -run TestC11ReproSeekEOF -v ./c11/).
+// C11:readobjectparts-seek-eof-legacy-compressed (fixed in /repo 21ecd34), kept
+// as a plain regression test: ./vgo test -run TestC11ReproSeekEOF -v ./c11/
 func TestC11ReproSeekEOF(t *testing.T) {
 	dir, _ := os.MkdirTemp("", "c11-repro-")
 	defer os.RemoveAll(dir)
